@@ -61,7 +61,9 @@ def frame_rule(ctx):
         else:
             i, j = i3, j3
         k = cross(i, j)
-        beam = XObj(beam_cls, dict(line=SimpleNamespace(unitVector=XArray((3,), i)), yAxis=XArray((3,), j), name="b0", dim=2 if dof_n == 3 else 3))
+        _ln = SimpleNamespace(unitVector=XArray((3,), i))
+        # (the public attributes and the private fields behind them: a rewrite may read either, refactored/C10-R2)
+        beam = XObj(beam_cls, {"line": _ln, beam_cls.mangle("__line"): _ln, "yAxis": XArray((3,), j), beam_cls.mangle("__yAxis"): XArray((3,), j), "name": "b0", "dim": 2 if dof_n == 3 else 3, beam_cls.mangle("__dim"): 2 if dof_n == 3 else 3})
         obj = XObj(eb, dict(Ne=1, nPe=nPe))
         obj.attrs["Get_Elements_Tag"] = lambda tag: [0]
         bs = SimpleNamespace(dof_n=dof_n, beams=[beam], dim=2 if dof_n == 3 else 3)
@@ -76,7 +78,8 @@ def frame_rule(ctx):
             badn = None
             for fi_, fj_ in num_frames:
                 fk_ = cross(list(fi_), list(fj_))
-                beam_n = XObj(beam_cls, dict(line=SimpleNamespace(unitVector=XArray((3,), list(fi_))), yAxis=XArray((3,), list(fj_)), name="b0", dim=2 if dof_n == 3 else 3))
+                _ln = SimpleNamespace(unitVector=XArray((3,), list(fi_)))
+                beam_n = XObj(beam_cls, {"line": _ln, beam_cls.mangle("__line"): _ln, "yAxis": XArray((3,), list(fj_)), beam_cls.mangle("__yAxis"): XArray((3,), list(fj_)), "name": "b0", "dim": 2 if dof_n == 3 else 3, beam_cls.mangle("__dim"): 2 if dof_n == 3 else 3})
                 bs_n = SimpleNamespace(dof_n=dof_n, beams=[beam_n], dim=2 if dof_n == 3 else 3)
                 try:
                     Xn = XArray.from_nested(I.call_function(fP, [bs_n], self_obj=obj))
